@@ -19,7 +19,10 @@ type C14Case struct {
 	B     []int   `json:"b"`     // slots of proof B, likewise
 	Wants []int   `json:"wants"` // restriction request: slots, in request order (may name slots outside A)
 	Req   []int   `json:"req"`   // targets asked of MapPollard.GetMissingPositions / VerifyPartialProof
-	Rel   string  `json:"rel,omitempty"`
+	// Req2: a second request right after the first, usually of the same length, handed over in the SAME
+	// argument buffers (a caller recycling its scratch slices)
+	Req2 []int  `json:"req2,omitempty"`
+	Rel  string `json:"rel,omitempty"`
 }
 
 // related draws a second target set with a forced relation to the first.
@@ -143,6 +146,13 @@ func genC14(t *rapid.T) C14Case {
 	}
 	c.Wants = w
 	c.Req, _ = genRelated(t, f, g.trackedList())
+	if live := f.Live(); len(c.Req) > 0 && len(live) > 0 && rapid.IntRange(0, 3).Draw(t, "second-req") != 0 {
+		n := len(c.Req)
+		if n > len(live) || rapid.IntRange(0, 4).Draw(t, "req2-otherlen") == 0 {
+			n = rapid.IntRange(1, len(live)).Draw(t, "req2-len")
+		}
+		c.Req2 = rapid.Permutation(live).Draw(t, "req2")[:n:n]
+	}
 	return c
 }
 
@@ -195,7 +205,7 @@ func runC14(c C14Case) *Result {
 	}
 	f := w.f
 	v := f.View()
-	for _, l := range [][]int{c.A, c.B, c.Wants, c.Req} {
+	for _, l := range [][]int{c.A, c.B, c.Wants, c.Req, c.Req2} {
 		if err := w.liveCheck(-1, l); err != nil {
 			return res.failf("%v", err)
 		}
@@ -385,10 +395,17 @@ func runC14(c C14Case) *Result {
 	}
 
 	// ---- MapPollard.GetMissingPositions + VerifyPartialProof ------------------------------
-	if len(c.Req) > 0 {
+	for ri, req := range [][]int{c.Req, c.Req2} {
+		if len(req) == 0 {
+			continue
+		}
+		if ri == 1 {
+			res.class("map-missing:second-request-same-buffers")
+		}
 		m := w.insts[0].M
-		reqPos := posOfSlots(v, c.Req)
-		reqH := f.HashesOf(c.Req)
+		ar := &w.insts[0].ar
+		reqPos := posOfSlots(v, req)
+		reqH := f.HashesOf(req)
 		need, _ := v.ProofPositions(reqPos)
 		vr := f.ViewR(m.TotalRows)
 		required, allowed := partialBands(vr, w.trackedList())
@@ -407,7 +424,8 @@ func runC14(c C14Case) *Result {
 			}
 			_ = allowed
 		}
-		got := m.GetMissingPositions(cloneU64(reqPos))
+		ar.next()
+		got := m.GetMissingPositions(ar.u64s(reqPos))
 		if len(got) != 0 || len(want) != 0 {
 			if !eqU64(got, want) {
 				return res.failf("%s.GetMissingPositions(%v) (N=%d) = %v, the canonical proof positions it does not store are %v", w.insts[0].Cfg, reqPos, v.N, got, want)
@@ -417,7 +435,8 @@ func runC14(c C14Case) *Result {
 		if len(got) > 0 {
 			res.class("map-missing:nonempty")
 			short := cloneHashes(supply[:len(supply)-1])
-			if err := m.VerifyPartialProof(cloneU64(reqPos), cloneHashes(reqH), short, false); err == nil {
+			ar.next()
+			if err := m.VerifyPartialProof(ar.u64s(reqPos), ar.hashes(reqH), ar.hashes(short), false); err == nil {
 				return res.failf("%s.VerifyPartialProof(%v) succeeded although the hash at missing position %d was withheld", w.insts[0].Cfg, reqPos, got[len(got)-1])
 			}
 		} else {
@@ -428,10 +447,12 @@ func runC14(c C14Case) *Result {
 			// refused and must leave nothing behind: the forest still misses exactly the same positions
 			bad := cloneHashes(supply)
 			bad[len(bad)/2] = model.FreshHash(31337)
-			if err := m.VerifyPartialProof(cloneU64(reqPos), cloneHashes(reqH), bad, true); err == nil {
+			ar.next()
+			if err := m.VerifyPartialProof(ar.u64s(reqPos), ar.hashes(reqH), ar.hashes(bad), true); err == nil {
 				res.count("wrong-partial-proof-accepted(C03)", 1)
 			} else {
-				if again := m.GetMissingPositions(cloneU64(reqPos)); !eqU64(again, got) {
+				ar.next()
+				if again := m.GetMissingPositions(ar.u64s(reqPos)); !eqU64(again, got) {
 					return res.failf("%s: after a REFUSED VerifyPartialProof(remember=true) GetMissingPositions(%v) = %v, before it was %v: the rejected hashes were kept", w.insts[0].Cfg, reqPos, again, got)
 				}
 				if err := w.check(); err != nil {
@@ -440,22 +461,25 @@ func runC14(c C14Case) *Result {
 				res.count("refused-partial-proof", 1)
 			}
 		}
-		if err := m.VerifyPartialProof(cloneU64(reqPos), cloneHashes(reqH), cloneHashes(supply), false); err != nil {
+		ar.next()
+		if err := m.VerifyPartialProof(ar.u64s(reqPos), ar.hashes(reqH), ar.hashes(supply), false); err != nil {
 			return res.failf("%s.VerifyPartialProof(%v) (N=%d) with the true hashes at exactly the missing positions %v failed: %v", w.insts[0].Cfg, reqPos, v.N, got, err)
 		}
 		if err := w.check(); err != nil {
 			return res.failf("after VerifyPartialProof(remember=false): %v", err)
 		}
-		if err := m.VerifyPartialProof(cloneU64(reqPos), cloneHashes(reqH), cloneHashes(supply), true); err != nil {
+		ar.next()
+		if err := m.VerifyPartialProof(ar.u64s(reqPos), ar.hashes(reqH), ar.hashes(supply), true); err != nil {
 			return res.failf("%s.VerifyPartialProof(%v, remember) with the true hashes at the missing positions failed: %v", w.insts[0].Cfg, reqPos, err)
 		}
-		for _, s := range c.Req {
+		for _, s := range req {
 			w.tracked[s] = true
 		}
 		if err := w.check(); err != nil {
-			return res.failf("after VerifyPartialProof(remember=true) of slots %v: %v", c.Req, err)
+			return res.failf("after VerifyPartialProof(remember=true) of slots %v: %v", req, err)
 		}
-		if g := m.GetMissingPositions(cloneU64(reqPos)); len(g) != 0 {
+		ar.next()
+		if g := m.GetMissingPositions(ar.u64s(reqPos)); len(g) != 0 {
 			return res.failf("%s.GetMissingPositions(%v) = %v right after the same targets were verified with remember", w.insts[0].Cfg, reqPos, g)
 		}
 	}
